@@ -47,9 +47,11 @@ Print Assumptions C14_only_own_state.
 
 (* and every event in the log records the state of the write that produced it *)
 Theorem C14_event_state_of_write : forall c ops, hist_ok ops -> forall e, In e (w_log (fst (run_ops c ops))) ->
+  e_topic e = TRunStateChange ->
   exists r, In r (w_hist (fst (run_ops c ops))) /\ e_state e = rs_code (r_state r) /\ e_run e = r_run r.
 Proof.
-  intros c ops H e He. destruct (p_nothing_invented c ops H e He) as (r & Hr & Ev). exists r. split; [exact Hr|].
+  intros c ops H e He Ht. assert (Hc : conn_topic (e_topic e) = false) by (rewrite Ht; reflexivity).
+  destruct (p_nothing_invented c ops H e He Hc) as (r & Hr & Ev). exists r. split; [exact Hr|].
   destruct Ev as (_ & _ & E3 & _ & _ & E6 & _). cbn in E3, E6. auto.
 Qed.
 Print Assumptions C14_event_state_of_write.
